@@ -20,8 +20,9 @@ RULE = (
 )
 ASSUMPTIONS = ["/dev/shm is the named-semaphore namespace (Linux)", "histories whose ending is SIGKILL or os._exit of the parent contain no "
                "executor (workers with timeout=None outlive a SIGKILLed parent by design, see test_sigkill_shutdown_leaks_workers)"]
-KINDS = ["Lock", "RLock", "Semaphore", "BoundedSemaphore", "Condition", "Event", "Queue", "SimpleQueue", "executor"]
-EXPECTED_SEMS = {"Lock": 1, "RLock": 1, "Semaphore": 1, "BoundedSemaphore": 1, "Condition": 4, "Event": 5, "Queue": 3, "SimpleQueue": 2}
+# NamedSem: the base class with an explicit name of the caller's choosing (separator characters included)
+KINDS = ["Lock", "RLock", "Semaphore", "BoundedSemaphore", "Condition", "Event", "Queue", "SimpleQueue", "NamedSem", "executor"]
+EXPECTED_SEMS = {"Lock": 1, "RLock": 1, "Semaphore": 1, "BoundedSemaphore": 1, "Condition": 4, "Event": 5, "Queue": 3, "SimpleQueue": 2, "NamedSem": 1}
 
 
 def _sems_of(pid):
